@@ -39,7 +39,7 @@ CONF = {
     "C12": dict(also=dict(quick=[("C04", 1500)], thorough=[("C04", 20000)]), level="exploration", workers=16, quick=dict(cases=2500, size=70), thorough=dict(cases=48000, size=100)),
     "C10": dict(also=dict(quick=[("C02", 1200)], thorough=[("C02", 20000)]), level="exploration", workers=16, quick=dict(cases=2500, size=60), thorough=dict(cases=45000, size=100)),
     "C14": dict(level="exploration", workers=16, quick=dict(cases=700, size=60), thorough=dict(cases=32000, size=100)),
-    "C13": dict(also=dict(quick=[("C08", 600), ("C07", 1200)], thorough=[("C08", 20000), ("C07", 30000)]), level="exploration", workers=16, quick=dict(cases=2000, size=60), thorough=dict(cases=48000, size=100)),
+    "C13": dict(also=dict(quick=[("C08", 600), ("C07", 1200), ("C09", 800)], thorough=[("C08", 20000), ("C07", 30000), ("C09", 20000)]), level="exploration", workers=16, quick=dict(cases=2000, size=60), thorough=dict(cases=48000, size=100)),
     "C15": dict(level="exploration", workers=16, quick=dict(cases=6000, size=80), thorough=dict(cases=90000, size=100)),
     "C16P": dict(level="exploration", workers=16, quick=dict(cases=4000, size=60), thorough=dict(cases=150000, size=100),
                  fuzz=[dict(name="fz_chunk", quick_runs=150000, thorough_runs=5000000, max_len=400)]),
